@@ -64,7 +64,8 @@ def part1(M):
 
 
 PROOFS = ["right", "wrong-code", "arbitrary", "short", "front-truncated", "empty", "absent"]
-M6S = ["honest", "absent", "arbitrary", "truncated", "wrong-key-label", "wrong-nonce", "inner", "fields-outside-envelope"]
+ACC_IDS = [hap.ACC_ID.encode(), b"7c:2a:91:0b:e4:5d", b"bridge-0001"]
+M6S = ["honest", "honest-but-empty-state", "absent", "arbitrary", "truncated", "wrong-key-label", "wrong-nonce", "inner", "fields-outside-envelope"]
 OUTSIDE = ["signature", "identifier", "public-key", "all"]
 INNER_ID = ["own", "absent"]
 INNER_PK = ["own", "other-key", "absent"]
@@ -136,7 +137,8 @@ def part2(M):
                            "the accessory verifies the controller's signature over iOSDeviceX|id|LTPK")
         # ---- M6
         acc_x = be.hkdf(K, b"Pair-Setup-Accessory-Sign-Salt", b"Pair-Setup-Accessory-Sign-Info")
-        own_pk, own_id = hap.LT_PUB["A"], hap.ACC_ID.encode()
+        # the identifier is whatever the accessory presents: upper case, lower case, not even an address
+        own_pk, own_id = hap.LT_PUB["A"], ex.choice("accessory_id", ACC_IDS)
 
         def seal(items, key=enc_key, label=b"PS-Msg06"):
             return be.encrypt(key, label, be.b(tlv8_encode(items)))
@@ -146,9 +148,12 @@ def part2(M):
         honest = seal(honest_items)
         msel = ex.choice("m6", M6S)
         authentic = False
+        state6 = b"\x06"
         presented = (own_id, own_pk)
         if msel == "honest":
             m6, authentic = honest, True
+        elif msel == "honest-but-empty-state":
+            m6, state6 = honest, b""  # a State item truncated to zero length is not the expected step number
         elif msel == "absent":
             m6 = None
         elif msel == "arbitrary":
@@ -188,7 +193,7 @@ def part2(M):
             m6 = seal(items)
             authentic = isel == "own" and pk is not None and ssel == "valid"
             presented = (own_id, pkv)
-        fields = [(T_STATE, b"\x06")] + ([(T_ENC, m6)] if m6 is not None else [])
+        fields = [(T_STATE, state6)] + ([(T_ENC, m6)] if m6 is not None else [])
         if msel == "fields-outside-envelope":
             fields += outer_extra
         # BLE hands the whole decoded reply to the state machine, IP/CoAP apply the 'expected' filter
